@@ -227,14 +227,13 @@ class XMLResourceLoader:
         nsmap_stack: list[dict[str, str]] = [{}]
         remaining_levels = _limits.MAX_XML_DEPTH
 
-        self._nsmaps.clear()
-        self._xmlns.clear()
-
         acquired = self._lazy_lock.acquire(blocking=False)
         if not acquired:
             raise XMLResourceError(f"lazy resource {self!r} is already under iteration")
 
         try:
+            self._nsmaps.clear()
+            self._xmlns.clear()
             for event, node in self._iterparse(fp, events):
                 if event == 'start':
                     remaining_levels -= 1
